@@ -29,6 +29,8 @@ func init() {
 	// spending one output twice creates value
 	shareRow("C02", "D2-two-txns", "C01")
 	shareRow("C02", "D3-ephemeral", "C01")
+	// ... and so does spending under the ID of an element of another kind
+	shareRow("C02", "D6-cross-kind-parent", "C01")
 	// a resolved contract that stays an unresolved member is also a membership failure
 	shareRow("C02", "D5-v2-revise-renew-then-again", "C04")
 	// a forged or resolved contract listed as expiring is paid out (again)
